@@ -60,11 +60,26 @@ TReset == /\ Ev.e = "reset"
 KeyedOps == {"insert", "get", "get_size", "contains", "delete", "cas", "incr", "iia", "patch",
              "update_ttl", "get_ttl"}
 
+\* A key is "unmodified for the whole query" only if no mutating call on it overlaps the scan: a
+\* call that is still in flight may have published in the hash index but not yet in the ordered one.
+Unstable == [p |-> FALSE, ts |-> UZero, exp |-> UZero, val |-> UnknownVal]
+Mutating == {"insert", "delete", "cas", "incr", "iia", "patch", "update_ttl"}
+TouchedBy(u, k) == pend[u].on /\ ((pend[u].op \in Mutating /\ pend[u].a.k = k) \/ pend[u].op = "sweep")
+MarkScans(p, e) ==   \* pending scans learn that key e.k (or every key, for a sweep) is being modified
+  [u \in 1 .. Len(p) |->
+     IF p[u].on /\ p[u].op = "range" /\ (e.op \in Mutating \/ e.op = "sweep")
+     THEN [p[u] EXCEPT !.seenAll = [k \in 1 .. N |->
+               IF e.op = "sweep" \/ e.k = k THEN p[u].seenAll[k] \cup {Unstable} ELSE p[u].seenAll[k]]]
+     ELSE p[u]]
+
 TInv == /\ Ev.e = "inv"
-        /\ pend' = [pend EXCEPT ![Ev.t] =
+        /\ pend' = [MarkScans(pend, Ev) EXCEPT ![Ev.t] =
              [on |-> TRUE, op |-> Ev.op, a |-> Ev,
               seen |-> IF Ev.op \in KeyedOps THEN {Strip(kv[Ev.k])} ELSE {},
-              seenAll |-> IF Ev.op = "range" THEN [i \in 1 .. N |-> {Strip(kv[i])}] ELSE <<>>,
+              seenAll |-> IF Ev.op = "range"
+                          THEN [i \in 1 .. N |-> {Strip(kv[i])} \cup
+                                  (IF \E u \in 1 .. Len(pend) : u # Ev.t /\ TouchedBy(u, i) THEN {Unstable} ELSE {})]
+                          ELSE <<>>,
               npub |-> 0,                       \* publications on its key by OTHER calls meanwhile
               pubbed |-> FALSE, reaped |-> FALSE, pre |-> S!NoRec, post |-> S!NoRec]]
         /\ flags' = {}
@@ -206,8 +221,11 @@ TFinal ==
                     THEN {"mem"} ELSE {})
   /\ UNCHANGED <<kv, now, cfg, klen, pend>>
 
+\* a schedule the controller could not drive to completion (counted by the harness, no verdict)
+TStall == Ev.e = "stall" /\ flags' = {} /\ UNCHANGED <<kv, now, cfg, klen, pend>>
+
 TNext == /\ l <= Len(Rec) /\ l' = l + 1
-         /\ (TReset \/ TInv \/ TPub \/ TRes \/ TMem \/ TFinal)
+         /\ (TReset \/ TInv \/ TPub \/ TRes \/ TMem \/ TFinal \/ TStall)
 TSpec == TInit /\ [][TNext]_tvars
 
 (* ------------------------------ verdicts ------------------------------ *)
